@@ -156,6 +156,29 @@ func c14Gen(j *rt.Job, seed uint64) (cases []c14In) {
 			add(c14In{EP: "xmss.Verify", W: 16, Msg: nil, Sig: s, PK: hpk, Cls: "nil-message"})
 		}
 		add(c14In{EP: "xmss.Verify", W: 16, Msg: hmsg, Sig: nil, PK: hpk, Cls: "nil-signature"})
+		// sizes that are admissible for ANOTHER w, with a descriptor matching the height that size names
+		// under each of the three bases (a genuine default-w signature handed to a w=4 / w=256 verifier)
+		for _, w := range []uint32{4, 16, 256} {
+			add(c14In{EP: "xmss.VerifyWithCustomWOTSParamW", W: w, Msg: hmsg, Sig: hsig, PK: hpk, Cls: "honest-w16-signature-other-w"})
+			for _, ow := range []uint32{4, 16, 256} {
+				if ow == w {
+					continue
+				}
+				for h := 2; h <= 30; h += 2 {
+					l := wBase(ow) + 32*h
+					for _, bw := range []uint32{4, 16, 256} {
+						hh := (l - wBase(bw)) / 32
+						pk := rng.Bytes(67)
+						pk[0] = byte(rng.Intn(3))
+						pk[1] = byte(hh / 2 & 0x0F)
+						if h == 4 && ow == 16 && bw == 16 {
+							pk = append([]byte(nil), hpk...)
+						}
+						add(c14In{EP: "xmss.VerifyWithCustomWOTSParamW", W: w, Msg: hmsg, Sig: content(l, h/2), PK: pk, Cls: fmt.Sprintf("w=%d/size-of-w=%d/desc-height-by-base-of-w=%d", w, ow, bw)})
+					}
+				}
+			}
+		}
 		add(c14In{EP: "xmss.Verify", W: 16, Msg: rng.Bytes(1 << 20), Sig: hsig, PK: hpk, Cls: "1MiB-message"})
 	case "xmss-desc":
 		// descriptor byte 0 / byte 1 values against sizes whose height matches / does not match
@@ -232,6 +255,58 @@ func c14Gen(j *rt.Job, seed uint64) (cases []c14In) {
 				}
 			}
 		}
+		// hint sections from a grammar: monotone counts that may exceed omega (up to 255), positions strictly
+		// increasing inside each row -- including, for counts beyond 75, the count bytes themselves -- so that an
+		// input survives every ordering check and only the bound on the counts stands between it and the end of the buffer
+		for t := 0; t < 600; t++ {
+			s := append([]byte(nil), hs[:]...)
+			hsec := s[hintOff:]
+			switch t % 4 {
+			case 0: // all 83 bytes strictly increasing from a random start with step 1..3
+				step := 1 + rng.Intn(3)
+				start := rng.Intn(256 - 83*step + 1)
+				for k := 0; k < 83; k++ {
+					hsec[k] = byte(start + k*step)
+				}
+			case 1: // as above but the first rows keep honest small counts
+				step := 1 + rng.Intn(2)
+				start := rng.Intn(256 - 83*step + 1)
+				for k := 0; k < 83; k++ {
+					hsec[k] = byte(start + k*step)
+				}
+				rows := rng.Intn(7)
+				c := 0
+				for k := 0; k < rows; k++ {
+					c += rng.Intn(4)
+					hsec[75+k] = byte(c)
+				}
+			case 2: // counts monotone, last ones beyond omega; positions ascending within rows
+				c := 0
+				for k := 0; k < 8; k++ {
+					c += rng.Intn(40)
+					if c > 255 {
+						c = 255
+					}
+					hsec[75+k] = byte(c)
+				}
+				prev := 0
+				for k := 0; k < 8; k++ {
+					cnt := int(hsec[75+k])
+					v := rng.Intn(8)
+					for q := prev; q < cnt && q < 75; q++ {
+						hsec[q] = byte(v)
+						v += 1 + rng.Intn(3)
+						if v > 255 {
+							v = 255
+						}
+					}
+					prev = cnt
+				}
+			case 3: // one count byte far beyond the buffer, everything before it honest
+				hsec[75+rng.Intn(8)] = byte(76 + rng.Intn(180))
+			}
+			add(c14In{EP: "dilithium.Verify", Msg: hm, Sig: s, PK: pks[0], Cls: "hint-grammar"})
+		}
 		for t := 0; t < 1500; t++ {
 			s := content(dilSigBytes, t)
 			switch t % 6 {
@@ -280,6 +355,15 @@ func c14Gen(j *rt.Job, seed uint64) (cases []c14In) {
 				s[hintOff+75+row] = byte(v)
 				add(c14In{EP: "dilithium.Open", Sig: s, PK: pkA[:], Cls: "count-byte-sweep"})
 			}
+		}
+		for t := 0; t < 200; t++ { // strictly increasing hint sections (see dil-verify)
+			s := append([]byte(nil), sealed...)
+			step := 1 + rng.Intn(3)
+			start := rng.Intn(256 - 83*step + 1)
+			for k := 0; k < 83; k++ {
+				s[hintOff+k] = byte(start + k*step)
+			}
+			add(c14In{EP: "dilithium.Open", Sig: s, PK: pkA[:], Cls: "hint-grammar"})
 		}
 	case "dil-addr":
 		for t := 0; t < 4000; t++ {
